@@ -17,7 +17,11 @@ use astria_core::{
         action::ValidatorUpdate,
         TransactionBody,
     },
-    upgrades::test_utils::UpgradesBuilder,
+    sequencerblock::v1::DataItem,
+    upgrades::{
+        test_utils::UpgradesBuilder,
+        v1::Change,
+    },
     Protobuf as _,
 };
 use bytes::Bytes;
@@ -65,8 +69,12 @@ async fn run_behaviour(c: &Value) -> (usize, Vec<Value>, String) {
     let post_aspen = c["post_aspen"].as_bool().unwrap();
     let genesis: Vec<u64> = c["genesis"].as_array().unwrap().iter().map(|x| x.as_u64().unwrap()).collect();
     let nkeys = genesis.len() as u64;
+    // a history that crosses the upgrade: legacy blocks, then Aspen activates at `aspen_height`
+    let aspen_height = c["aspen_height"].as_u64();
     let upgrades = if post_aspen {
         None
+    } else if let Some(h) = aspen_height {
+        Some(UpgradesBuilder::new().set_aspen(Some(h)).set_blackburn(Some(h + 40)).build())
     } else {
         // the legacy validator-set storage is in force until Aspen activates
         Some(UpgradesBuilder::new().set_aspen(Some(9)).set_blackburn(Some(10)).build())
@@ -136,7 +144,31 @@ async fn run_behaviour(c: &Value) -> (usize, Vec<Value>, String) {
         block.clear();
         seed += 1;
         let height = fixture.block_height().await.increment();
-        let block_txs: Vec<Bytes> = if post_aspen {
+        // the storage format in force while this block runs
+        let post_aspen = aspen_height.map_or(post_aspen, |h| height.value() >= h);
+        if post_aspen != st["post"].as_bool().unwrap() {
+            panic!("behaviour and activation height disagree at step {k}");
+        }
+        let block_txs: Vec<Bytes> = if let Some(h) = aspen_height.filter(|h| height.value() >= *h) {
+            // the activation block carries the upgrade's change hashes; extended commit info starts two blocks later
+            let commitments = generate_rollup_datas_commitment::<true>(&txs, HashMap::new());
+            let hashes = (height.value() == h).then(|| {
+                let aspen = fixture.app.upgrades_handler().upgrades().aspen().unwrap().clone();
+                DataItem::UpgradeChangeHashes(aspen.changes().map(Change::calculate_hash).collect()).encode()
+            });
+            let eci = (height.value() > h + 1).then(|| {
+                let info = astria_core::protocol::price_feed::v1::ExtendedCommitInfoWithCurrencyPairMapping::empty(
+                    0u16.into(),
+                );
+                DataItem::ExtendedCommitInfo(info.into_raw().encode_to_vec().into()).encode()
+            });
+            commitments
+                .into_iter()
+                .chain(hashes)
+                .chain(eci)
+                .chain(txs.iter().map(|tx| tx.encoded_bytes().clone()))
+                .collect()
+        } else if post_aspen {
             crate::test_utils::transactions_with_extended_commit_info_and_commitments(height, &txs, None)
         } else {
             generate_rollup_datas_commitment::<false>(&txs, HashMap::new())
